@@ -627,3 +627,207 @@ def generate_formulas(read):
                "  let l := toMercatorSrc H sc lat0 lon0\n  let p := toMercatorSrc H sc lat lon\n  (H.sub p.1 l.1, H.mul (H.sub p.2 l.2) (H.neg (H.lit 1)))\n")
     out.append("end Adsb.Gen\n")
     return "\n".join(out)
+
+# ------------------------------------------------------------------------------------------------------------------------------
+# cpr.rs: `positive_mod`, `get_lat_lon`, `get_position` as terms over `CprOps` (generic in the number type), Gen/CprFn.lean.
+# Fragment: `let [mut]`, `x -= e` / `x += e` under an `if`, `if c { return None; }`, `let x = if c { e } else { e }`, float
+# arithmetic with `%`, `libm::floor`, `f64::from(frame.field)`, the u64 arithmetic `cpr_nl(..) - n`, `cmp::max(.., ..)`, `.. as f64`
+# (every u64 subtraction is written out as a check), range `contains`, `cpr_nl(a) != cpr_nl(b)`, the two format comparisons.
+
+CTOK = re.compile(r"\s*(?:([0-9][0-9_]*\.[0-9][0-9_]*|[0-9][0-9_]*\.(?![A-Za-z_.0-9])|[0-9][0-9_]*)|([A-Za-z_][A-Za-z_0-9]*(?:::[A-Za-z_][A-Za-z_0-9]*)*)|(\.\.=|-=|\+=|>=|<=|==|!=|\|\||&&|[-+*/%(){};:,.=!<>&@|]))")
+
+def ctokenize(src):
+    out = []; i = 0
+    while True:
+        m = CTOK.match(src, i)
+        if not m:
+            if src[i:].strip() == "": return out
+            raise Unsupported("cpr: cannot tokenize at: " + src[i:i + 40].strip())
+        if m.group(1) is not None: out.append(("num", m.group(1).replace("_", "")))
+        elif m.group(2) is not None: out.append(("id", m.group(2)))
+        else: out.append(("op", m.group(3)))
+        i = m.end()
+
+class CP(FP):
+    """float expressions as in FP (H = the CprOps value), plus the u64 sub-expressions; `self.checks` collects the u64 checks of the
+    expression being parsed, in evaluation order"""
+    def __init__(self, toks, env, consts, ienv=None, fields=None):
+        FP.__init__(self, toks, env, consts); self.ienv = dict(ienv or {}); self.fields = fields or {}; self.checks = []
+    def lit(self, text):
+        if text in ("0.5", "0.50"): return "H.half"
+        return FP.lit(self, text)
+    def term(self):
+        a = self.postfix()
+        while self.peek() in (("op", "*"), ("op", "/"), ("op", "%")):
+            op = self.eat("op")[1]; b = self.postfix()
+            a = "(H.%s %s %s)" % ({"*": "mul", "/": "div", "%": "rem"}[op], a, b)
+        return a
+    # u64 expressions: literal | name bound to a u64 | cpr_nl(float) | cmp::max(i, i) | ( i ) | i - i
+    def iatom(self):
+        tok = self.peek()
+        if tok[0] == "num" and "." not in tok[1]:
+            self.i += 1; return str(int(tok[1]))
+        if tok == ("id", "cpr_nl") and self.peek(1) == ("op", "("):
+            self.i += 2; a = self.expr(); self.eat("op", ")"); return "(H.nl %s)" % a
+        if tok in (("id", "cmp::max"), ("id", "core::cmp::max"), ("id", "std::cmp::max")) and self.peek(1) == ("op", "("):
+            self.i += 2; a = self.iexpr(); self.eat("op", ","); b = self.iexpr(); self.eat("op", ")"); return "(max %s %s)" % (a, b)
+        if tok == ("op", "("):
+            self.i += 1; a = self.iexpr(); self.eat("op", ")"); return a
+        if tok[0] == "id" and tok[1] in self.ienv:
+            self.i += 1; return self.ienv[tok[1]]
+        raise Unsupported("cpr: not a u64 expression at %s" % (tok,))
+    def iexpr(self):
+        a = self.iatom()
+        while self.peek() == ("op", "-"):
+            self.i += 1; b = self.iatom()
+            self.checks.append("decide (%s < %s)" % (a, b))            # u64 subtraction: panics when it would go below zero
+            a = "(%s - %s)" % (a, b)
+        return a
+    def atom(self):
+        tok = self.peek()
+        # `<u64 expression> as f64`
+        save, nchk = self.i, len(self.checks)
+        try:
+            a = self.iatom()
+            if self.peek() == ("id", "as") and self.peek(1) == ("id", "f64"):
+                self.i += 2; return "(H.lit %s)" % a
+        except Unsupported: pass
+        self.i = save; del self.checks[nchk:]
+        if tok == ("id", "f64::from") and self.peek(1) == ("op", "("):
+            self.i += 2; fr = self.eat("id")[1]; self.eat("op", "."); fd = self.eat("id")[1]; self.eat("op", ")")
+            if (fr, fd) not in self.fields: raise Unsupported("cpr: f64::from(%s.%s)" % (fr, fd))
+            return "(H.lit %s)" % self.fields[(fr, fd)]
+        if tok == ("id", "libm::floor") and self.peek(1) == ("op", "("):
+            self.i += 2; a = self.expr()
+            if self.peek() == ("op", ","): self.i += 1                                           # trailing comma of a multi-line call
+            self.eat("op", ")"); return "(H.floor %s)" % a
+        if tok == ("id", "positive_mod") and self.peek(1) == ("op", "("):
+            self.i += 2; a = self.expr(); self.eat("op", ","); b = self.expr(); self.eat("op", ")"); return "(positiveModSrc H %s %s)" % (a, b)
+        if tok == ("op", "-") and self.peek(1)[0] == "num":
+            self.i += 1; return "(H.sub (H.lit 0) %s)" % self.postfix()
+        return FP.atom(self)
+    # conditions
+    def catom(self):
+        tok = self.peek()
+        if tok == ("op", "!") and self.peek(1) == ("op", "("):                                   # !(lo..=hi).contains(&x)
+            self.i += 2; lo = self.expr(); self.eat("op", "..="); hi = self.expr(); self.eat("op", ")"); self.eat("op", ".")
+            self.eat("id", "contains"); self.eat("op", "("); self.eat("op", "&"); x = self.expr(); self.eat("op", ")")
+            return "(!(H.leb %s %s && H.leb %s %s))" % (lo, x, x, hi)
+        if tok == ("id", "latest_frame") and self.peek(1) == ("op", "==") and self.peek(2) == ("id", "even_frame"):
+            self.i += 3; return "(decide (latest = even))"
+        if tok == ("id", "cpr_format") and self.peek(1) == ("op", "==") and self.peek(2) == ("op", "&") and self.peek(3) == ("id", "CPRFormat::Even"):
+            self.i += 4; return "fmtEven"
+        if tok == ("id", "cpr_nl"):
+            a = self.iatom(); op = self.eat("op")[1]; b = self.iatom()
+            if op not in ("!=", "=="): raise Unsupported("cpr: comparison of zone counts with " + op)
+            return "(%s %s %s)" % (a, op, b)
+        a = self.expr(); op = self.eat("op")[1]; b = self.expr()
+        if op == "<": return "(H.ltb %s %s)" % (a, b)
+        if op == "<=": return "(H.leb %s %s)" % (a, b)
+        if op == ">": return "(H.ltb %s %s)" % (b, a)
+        if op == ">=": return "(H.leb %s %s)" % (b, a)
+        raise Unsupported("cpr: comparison " + op)
+    def cond(self):
+        a = self.catom()
+        while self.peek() == ("op", "||"):
+            self.i += 1; b = self.catom(); a = "(%s || %s)" % (a, b)
+        return a
+    def fresh(self, rust):
+        self.n = getattr(self, "n", 0) + 1; ln = "x%d" % self.n; self.env[rust] = ln; return ln
+    def flush(self, out):
+        for c in self.checks: out.append("  let bad := bad || %s" % c)
+        self.checks = []
+    def stmts(self, kind):
+        """-> Lean lines; kind: 'val' (tail is a name), 'pair' (tail is `(a, b)`), 'pos' (tail is Some(Position{..}), early `return None`)"""
+        out = []
+        while True:
+            tok = self.peek()
+            if tok == ("id", "let"):
+                self.i += 1
+                if self.peek() == ("op", "("):
+                    self.i += 1; n1 = self.eat("id")[1]; self.eat("op", ","); n2 = self.eat("id")[1]; self.eat("op", ")"); self.eat("op", "=")
+                    if self.peek() == ("id", "if"):                       # let (p, c) = if C { (int, e) } else { (int, e) };
+                        self.i += 1; c = self.cond(); self.eat("op", "{"); self.eat("op", "("); i1 = int(self.eat("num")[1]); self.eat("op", ","); e1 = self.expr(); self.eat("op", ")"); self.eat("op", "}")
+                        self.eat("id", "else"); self.eat("op", "{"); self.eat("op", "("); i2 = int(self.eat("num")[1]); self.eat("op", ","); e2 = self.expr(); self.eat("op", ")"); self.eat("op", "}"); self.eat("op", ";")
+                        self.flush(out)
+                        self.n = getattr(self, "n", 0) + 1; li = "k%d" % self.n; self.ienv[n1] = li
+                        out.append("  let %s : Nat := if %s then %d else %d" % (li, c, i1, i2))
+                        lf = self.fresh(n2); out.append("  let %s := if %s then %s else %s" % (lf, c, e1, e2))
+                    elif self.peek() == ("id", "get_lat_lon"):          # let (lat, lon) = get_lat_lon(e, e, e, &latest_frame.odd_flag);
+                        self.i += 1; self.eat("op", "("); a1 = self.expr(); self.eat("op", ","); a2 = self.expr(); self.eat("op", ","); a3 = self.expr(); self.eat("op", ",")
+                        self.eat("op", "&"); self.eat("id", "latest_frame"); self.eat("op", "."); self.eat("id", "odd_flag"); self.eat("op", ")"); self.eat("op", ";")
+                        self.flush(out)
+                        self.n = getattr(self, "n", 0) + 1; r = "r%d" % self.n
+                        out.append("  let %s := getLatLonSrc H %s %s %s (latest.f == 0)" % (r, a1, a2, a3))
+                        out.append("  let bad := bad || %s.1" % r)
+                        self.env[n1] = "%s.2.1" % r; self.env[n2] = "%s.2.2" % r
+                    else: raise Unsupported("cpr: tuple binding")
+                    continue
+                if self.peek() == ("id", "mut"): self.i += 1
+                name = self.eat("id")[1]; self.eat("op", "=")
+                if self.peek() == ("id", "if"):
+                    self.i += 1; c = self.cond(); self.eat("op", "{"); e1 = self.expr(); self.eat("op", "}"); self.eat("id", "else"); self.eat("op", "{"); e2 = self.expr(); self.eat("op", "}")
+                    e = "if %s then %s else %s" % (c, e1, e2)
+                else: e = self.expr()
+                self.eat("op", ";"); self.flush(out)
+                ln = self.fresh(name); out.append("  let %s := %s" % (ln, e)); continue
+            if tok == ("id", "if"):
+                self.i += 1; c = self.cond(); self.eat("op", "{")
+                if self.peek() == ("id", "return"):
+                    if kind != "pos": raise Unsupported("cpr: early return outside get_position")
+                    self.i += 1; self.eat("id", "None"); self.eat("op", ";"); self.eat("op", "}"); self.flush(out)
+                    out.append("  if %s then (bad, none) else" % c); continue
+                name = self.eat("id")[1]; op = self.eat("op")[1]
+                if op not in ("-=", "+=") or name not in self.env: raise Unsupported("cpr: conditional statement")
+                e = self.expr()
+                if self.peek() == ("op", ";"): self.i += 1
+                self.eat("op", "}"); self.flush(out)
+                old = self.env[name]; ln = self.fresh(name)
+                out.append("  let %s := if %s then (H.%s %s %s) else %s" % (ln, c, "sub" if op == "-=" else "add", old, e, old)); continue
+            break
+        # tail
+        if kind == "val":
+            r = self.expr(); out.append("  " + r)
+        elif kind == "pair":
+            self.eat("op", "("); a = self.expr(); self.eat("op", ","); b = self.expr(); self.eat("op", ")"); self.flush(out)
+            out.append("  (bad, (%s, %s))" % (a, b))
+        else:
+            self.eat("id", "Some"); self.eat("op", "("); self.eat("id", "Position"); self.eat("op", "{"); self.eat("id", "latitude"); self.eat("op", ":"); a = self.expr(); self.eat("op", ",")
+            self.eat("id", "longitude"); self.eat("op", ":"); b = self.expr(); self.eat("op", "}"); self.eat("op", ")")
+            out.append("  (bad, some { lat := %s, lon := %s })" % (a, b))
+        if self.peek()[0] != "eof": raise Unsupported("cpr: trailing tokens %s" % (self.peek(),))
+        return out
+
+GET_POSITION_HEAD = ("let latest_frame = cpr_frames.1; let (even_frame, odd_frame) = match cpr_frames { ( even @ Altitude { odd_flag: CPRFormat::Even, .. }, "
+                     "odd @ Altitude { odd_flag: CPRFormat::Odd, .. }, ) | ( odd @ Altitude { odd_flag: CPRFormat::Odd, .. }, even @ Altitude { odd_flag: CPRFormat::Even, .. }, ) "
+                     "=> (even, odd), _ => return None, };")
+
+def generate_cpr(read):
+    """-> text of Gen/CprFn.lean"""
+    src = strip_comments(read("libadsb_deku/src/cpr.rs"))
+    # the constants, as terms
+    consts = {}
+    for name in ("NZ", "D_LAT_EVEN", "D_LAT_ODD", "CPR_MAX"):
+        m = re.search(r"const %s: f64 = ([^;]+);" % name, src)
+        if not m: raise Unsupported("cpr: constant " + name)
+        p = CP(ctokenize(m.group(1)), {}, consts); consts[name] = p.expr()
+        if p.peek()[0] != "eof": raise Unsupported("cpr: constant " + name)
+    out = ["import Adsb.Cpr", "/-! GENERATED by /verif/tools/rust2lean.py (called from extract.py) from /repo/libadsb_deku/src/cpr.rs on every run. Do not edit.",
+           "`positive_mod`, `get_lat_lon`, `get_position` as terms over `CprOps` (generic in the number type); the Boolean in the results collects the",
+           "u64 subtraction checks in execution order. -/", "namespace Adsb.Gen", "open Adsb", ""]
+    head, body = fn_text(src, r"fn positive_mod\(a: f64, b: f64\) -> f64 \{")
+    p = CP(ctokenize(body), {"a": "a", "b": "b"}, consts)
+    out += ["/-- `positive_mod` -/", "def positiveModSrc {α : Type} (H : CprOps α) (a b : α) : α :="] + p.stmts("val") + [""]
+    head, body = fn_text(src, r"fn get_lat_lon\(\s*lat: f64,\s*cpr_lon_even: f64,\s*cpr_lon_odd: f64,\s*cpr_format: &CPRFormat,?\s*\) -> \(f64, f64\) \{")
+    p = CP(ctokenize(body), {"lat": "lat", "cpr_lon_even": "lonE", "cpr_lon_odd": "lonO"}, consts)
+    out += ["/-- `get_lat_lon`; `fmtEven` = (`cpr_format` is `CPRFormat::Even`) -/", "def getLatLonSrc {α : Type} (H : CprOps α) (lat lonE lonO : α) (fmtEven : Bool) : Bool × (α × α) :=", "  let bad := false"] + p.stmts("pair") + [""]
+    head, body = fn_text(src, r"pub fn get_position\(cpr_frames: \(&Altitude, &Altitude\)\) -> Option<Position> \{")
+    norm = re.sub(r"\s+", " ", body).strip()
+    if not norm.startswith(GET_POSITION_HEAD): raise Unsupported("cpr: get_position does not start with the pairing of one even and one odd frame")
+    rest = norm[len(GET_POSITION_HEAD):]
+    fields = {("even_frame", "lat_cpr"): "even.lat", ("even_frame", "lon_cpr"): "even.lon", ("odd_frame", "lat_cpr"): "odd.lat", ("odd_frame", "lon_cpr"): "odd.lon"}
+    p = CP(ctokenize(rest), {}, consts, fields=fields)
+    out += ["/-- `get_position((a, b))`; the pairing (`match cpr_frames`) is recognised as a whole: one frame of each format, `b` the latest -/",
+            "def getPositionSrc {α : Type} (H : CprOps α) (a b : Alt) : Bool × Option (Position α) :=", "  let bad := false",
+            "  if a.f = b.f then (bad, none) else", "  let even := if a.f = 0 then a else b", "  let odd := if a.f = 0 then b else a", "  let latest := b"] + p.stmts("pos") + ["", "end Adsb.Gen", ""]
+    return "\n".join(out)
